@@ -89,6 +89,15 @@ static void parse_bytes(const char *s, int k)
                     b[n++] = (uint8_t)(hexval(e[0]) * 16 + hexval(e[1]));
                     e += 2;
                 }
+            } else if (op == '&') { /* &N:J  append saved[N][J..] */
+                unsigned long ln2 = strtoul(e, &e, 16), j = 0;
+                if (*e == ':') j = strtoul(e + 1, &e, 16);
+                if (ln2 < MAXSAVE && saved[ln2] && j < saved_len[ln2]) {
+                    size_t add = saved_len[ln2] - j;
+                    b = realloc(b, n + add + strlen(e) / 2 + 1);
+                    memcpy(b + n, saved[ln2] + j, add);
+                    n += add;
+                }
             } else {
                 unsigned long v = strtoul(e, &e, 16);
                 if (op == '~') { if ((v >> 3) < n) b[v >> 3] ^= (uint8_t)(0x80 >> (v & 7)); }
